@@ -77,6 +77,14 @@ Proof.
 Qed.
 
 (* ---------- the invariant over all histories ---------- *)
+Lemma sync_from_spec m sds pre oc :
+  sync_from m sds (secs_of m sds pre) oc = secs_of m sds (pre ++ [oc]).
+Proof.
+  destruct oc as [c|]; simpl.
+  - unfold secs_of. exact (sync_secs_spec m pre c sds 0).
+  - apply secs_of_none.
+Qed.
+
 Theorem run_state_spec m sds : forall ops,
   st_secs (run_state m sds ops) = secs_of m sds (eff_syncs false None ops)
   /\ st_avail (run_state m sds ops) = avail_after false ops
@@ -101,15 +109,16 @@ Proof.
       destruct (avail_after false ops) eqn:Ea.
       - rewrite app_nil_r. repeat split; congruence.
       - cbn [st_secs st_avail st_inf]. repeat split. rewrite Hs, IHs.
-        destruct (st_inf st') as [c|]; simpl.
-        + unfold secs_of. exact (sync_secs_spec m (eff_syncs false None ops) c sds 0).
-        + apply secs_of_none. }
+        apply sync_from_spec. }
     cbn [fold_left]. unfold step.
-    destruct o as [c|c| | |oc]; cbn [handle eff_syncs inf_after app]; rewrite ?app_nil_r.
-    2-5: try rewrite <- IHi;
+    destruct o as [c|c| | |oc| |i nd|i|i|i]; cbn [handle eff_syncs inf_after app]; rewrite ?app_nil_r.
+    2-5,7-10: try rewrite <- IHi;
       match goal with |- st_secs (ensure_avail _ _ ?s) = _ /\ _ => apply (Hens s); reflexivity end.
-    unfold ensure_avail. cbn [st_avail st_secs st_inf]. repeat split.
-    rewrite IHs. unfold secs_of. exact (sync_secs_spec m (eff_syncs false None ops) c sds 0).
+    + unfold ensure_avail. cbn [st_avail st_secs st_inf]. repeat split.
+      rewrite IHs. unfold secs_of. exact (sync_secs_spec m (eff_syncs false None ops) c sds 0).
+    + unfold ensure_avail. cbn [st_avail st_secs st_inf]. repeat split; [|exact IHi].
+      rewrite (secs_of_none m sds (eff_syncs false None ops)), sync_from_spec, <- app_assoc, IHi.
+      reflexivity.
 Qed.
 
 (* ---------- what a node gets from a cached section ---------- *)
@@ -134,15 +143,6 @@ Proof.
   unfold layered, node_layer.
   destruct (first_match ls es) as [e|]; simpl; [reflexivity|].
   rewrite prep_entry_absent, overlay_absent. reflexivity.
-Qed.
-
-Lemma observe_run_state m sds nodes ops :
-  observe nodes (run_state m sds ops) = spec_observe m sds nodes ops.
-Proof.
-  unfold observe, computed, spec_observe. rewrite <- flat_map_concat_map.
-  destruct (run_state_spec m sds ops) as [Hs _]. rewrite Hs.
-  apply flat_map_ext. intros ls. unfold secs_of. rewrite map_map.
-  apply map_ext. intros [i sd]. apply effective_spec_section.
 Qed.
 
 (* ---------- delivery is the identity on the computed spec ---------- *)
@@ -182,33 +182,91 @@ Proof.
   apply Forall_forall. intros x _. apply cfg_eqb_sound.
 Qed.
 
-Lemma deliver_id : forall comp stored, deliver stored comp = comp.
+Lemma reconcile_all_id sds mgs : forall nodes stored,
+  reconcile_all sds mgs nodes stored = map (option_map (fun n => render n sds mgs)) nodes.
 Proof.
-  induction comp as [|c ct IH]; intros stored; [reflexivity|].
-  simpl. rewrite deliver_node_id, IH. reflexivity.
+  induction nodes as [|nd t IH]; intros stored; [reflexivity|].
+  simpl. rewrite IH. f_equal. destruct nd as [n|]; [|reflexivity].
+  simpl. rewrite deliver_node_id. reflexivity.
+Qed.
+
+(* ---------- what every node gets rendered from the cache ---------- *)
+Lemma render_secs_of m nd syncs : forall sds k,
+  render nd sds (map (fun isd => spec_section m (snd isd) (last_good (fst isd) syncs))
+                     (combine (seq k (length sds)) sds))
+  = map (fun isd => spec_effective_n m nd (snd isd) (last_good (fst isd) syncs))
+        (combine (seq k (length sds)) sds).
+Proof.
+  induction sds as [|sd sds IH]; intros k; [reflexivity|].
+  simpl. rewrite IH. f_equal. unfold render_sec, spec_effective_n.
+  rewrite effective_spec_section. reflexivity.
+Qed.
+
+(* ---------- the world after a history ---------- *)
+Definition wrun (m : mode) (sds : list secdef) (w : world) (ops : list op) : world :=
+  fold_left (wstep m sds) ops w.
+
+Lemma wrun_state m sds : forall ops w,
+  w_h (wrun m sds w ops) = fold_left (step m sds) ops (w_h w)
+  /\ w_nodes (wrun m sds w ops) = nodes_fold (w_nodes w) ops.
+Proof.
+  unfold wrun, nodes_fold.
+  induction ops as [|o ops IH]; intros w; [split; reflexivity|].
+  simpl. destruct (IH (wstep m sds w o)) as [H1 H2]. split; assumption.
+Qed.
+
+Lemma wrun_slo m sds ops o w :
+  w_slo (wrun m sds w (ops ++ [o]))
+  = map (option_map (fun n => render n sds (st_secs (w_h (wrun m sds w (ops ++ [o]))))))
+        (w_nodes (wrun m sds w (ops ++ [o]))).
+Proof.
+  unfold wrun. rewrite fold_left_app. simpl. apply reconcile_all_id.
+Qed.
+
+Lemma observe_wrun m sds nodes ops o :
+  w_slo (wrun m sds (winit sds nodes) (ops ++ [o])) = spec_observe m sds nodes (ops ++ [o]).
+Proof.
+  rewrite wrun_slo.
+  destruct (wrun_state m sds (ops ++ [o]) (winit sds nodes)) as [Hh Hn]. rewrite Hh, Hn.
+  simpl. fold (run_state m sds (ops ++ [o])).
+  destruct (run_state_spec m sds (ops ++ [o])) as [Hs _]. rewrite Hs.
+  unfold spec_observe. apply map_ext. intros [n|]; [|reflexivity].
+  simpl. f_equal. unfold secs_of. apply render_secs_of.
 Qed.
 
 (* ---------- the observation after every operation ---------- *)
-Lemma run_from_prefix m sds nodes : forall ops st dl,
-  run_from m sds nodes st dl ops =
-  map (fun k => observe nodes (fold_left (step m sds) (firstn k ops) st)) (seq 1 (length ops)).
+Lemma run_from_prefix m sds : forall ops w,
+  run_from m sds w ops =
+  map (fun k => w_slo (wrun m sds w (firstn k ops))) (seq 1 (length ops)).
 Proof.
-  induction ops as [|o ops IH]; intros st dl; [reflexivity|].
-  simpl. rewrite deliver_id. f_equal. rewrite IH. rewrite <- (seq_shift (length ops) 1), map_map.
+  induction ops as [|o ops IH]; intros w; [reflexivity|].
+  simpl. f_equal. rewrite IH. rewrite <- (seq_shift (length ops) 1), map_map.
   apply map_ext. intros k. reflexivity.
 Qed.
 
-Theorem run_refines_spec m i : run m i = spec_run m i.
+Lemma firstn_snoc {A} : forall k (l : list A), (1 <= k <= length l)%nat ->
+  exists pre o, firstn k l = pre ++ [o].
 Proof.
-  unfold run, spec_run. rewrite run_from_prefix. apply map_ext. intros k.
-  apply (observe_run_state m (in_secs i) (in_nodes i) (firstn k (in_ops i))).
+  intros k l Hk. destruct (exists_last (l := firstn k l)) as (pre & o & E).
+  - intros E. apply (f_equal (@length A)) in E. rewrite firstn_length in E. simpl in E. lia.
+  - exists pre, o. exact E.
+Qed.
+
+Theorem run_from_spec m sds nodes ops :
+  run_from m sds (winit sds nodes) ops
+  = map (fun k => spec_observe m sds nodes (firstn k ops)) (seq 1 (length ops)).
+Proof.
+  rewrite run_from_prefix. apply map_ext_in. intros k Hk.
+  apply in_seq in Hk.
+  destruct (firstn_snoc k ops) as (pre & o & E); [lia|].
+  rewrite E. apply observe_wrun.
 Qed.
 
 (* ---------- the two history clauses of the property, on the step function ---------- *)
 Lemma sync_secs_nth m : forall sds olds c i d,
   length olds = length sds -> (i < length sds)%nat ->
   nth i (sync_secs m sds olds c) d
-  = sync_sec m (nth i sds (mkSec true (Obj None))) (nth i olds d) (nth i c SAbsent).
+  = sync_sec m (nth i sds (mkSec true None (Obj None))) (nth i olds d) (nth i c SAbsent).
 Proof.
   induction sds as [|sd sds IH]; intros olds c i d Hl Hi; simpl in Hi; [lia|].
   destruct olds as [|old olds]; simpl in Hl; [discriminate|].
@@ -230,7 +288,7 @@ Qed.
 Theorem absent_gives_default m sds st c i d :
   length (st_secs st) = length sds -> (i < length sds)%nat ->
   nth i c SAbsent = SAbsent ->
-  nth i (st_secs (step m sds st (OSync c))) d = default_of (nth i sds (mkSec true (Obj None))).
+  nth i (st_secs (step m sds st (OSync c))) d = default_of (nth i sds (mkSec true None (Obj None))).
 Proof.
   intros Hl Hi Hm. simpl. rewrite sync_secs_nth by assumption. rewrite Hm. reflexivity.
 Qed.
